@@ -89,6 +89,16 @@ def corruptions(name, t):
         if ev[m]['o'].get('jol'):
             out.append(mk('reopened_jol_entry', ('Tree_jol', 'UniqueNames', 'Content_jol', 'LinkClasses'),
                           lambda e: e[m]['o']['jol'].pop()))
+        if ev[m]['o'].get('rd', {}).get('wiso'):
+            out.append(mk('walk_forgets_a_name', ('Tree_walk_iso',),
+                          lambda e: [x for x in e[m]['o']['rd']['wiso'] if x['fs']][0].__setitem__('fs', [])))
+            out.append(mk('walk_lists_twice', ('Tree_walk_iso',),
+                          lambda e: e[m]['o']['rd']['wiso'].append(copy.deepcopy(e[m]['o']['rd']['wiso'][0]))))
+        if ev[m]['o'].get('rd', {}).get('fudf'):
+            out.append(mk('full_path_names_another_entry', ('Tree_fullpath_udf',),
+                          lambda e: e[m]['o']['rd']['fudf'][0].__setitem__('q', ['l', 'l'])))
+        if ev[m]['o'].get('rd', {}).get('fjol'):
+            out.append(mk('full_path_missing', ('Tree_fullpath_jol',), lambda e: e[m]['o']['rd']['fjol'].pop()))
         out.append(mk('refused_call_changed_image', ('RefusedDiff',),
                       lambda e: (e[m].__setitem__('base', 'differs'), e[m].__setitem__('basekind', 'refused'))))
     e_ = next((i for i, e in enumerate(ev) if isinstance(e.get('o'), dict) and e['o'].get('elt', {}).get('on')), None)
